@@ -411,7 +411,7 @@ def check_find(p, caller, past, pattern, pclass, scope_path=None, block_scope=No
             if is_stmt:
                 _, apath, attr, k0 = c["key"]
                 stmts = getattr(R.resolve(ir, apath), attr)
-                if _hole_ambiguity(past, stmts[k0:]):
+                if _hole_ambiguity(past, stmts[k0:]) and not _matches_with_empty_holes(past, stmts[k0:]):
                     extra = {"mechanism": "stmt_hole_lookahead_no_backtracking"}
             V("missing_match", _position_of(ir, c["key"]),
               f"{pattern!r}: position {c['key']} matches but was not returned "
@@ -454,6 +454,24 @@ def check_find(p, caller, past, pattern, pclass, scope_path=None, block_scope=No
                     V("wrong_exception", "-", f"find({pat_n!r}) raised {g1[1]}: {g1[2]} instead "
                       f"of SchedulingError", select="out_of_range", exc=g1[1])
     return viol, info
+
+
+def _matches_with_empty_holes(pats, stmts):
+    """does the sequence match when every leading / interior hole takes no statement at all (a
+    trailing hole takes the rest)?  exo's look-ahead finds such a match without any backtracking,
+    so its absence is not the listed mechanism"""
+    from ..refmatch import m_stmt
+
+    if not pats or all(p["k"] == "shole" for p in pats):
+        return False
+    trailing = pats[-1]["k"] == "shole"
+    core = [p for p in pats if p["k"] != "shole"]
+    if len(stmts) < len(core) + (1 if trailing else 0):
+        return False
+    try:
+        return all(m_stmt(p, st, False) for p, st in zip(core, stmts))
+    except Exception:
+        return False
 
 
 def _hole_ambiguity(pats, stmts):
